@@ -16,7 +16,7 @@ PROP = {
     "units": [
         {"name": "c11", "pkg": "./pkg/models", "run": "^TestVerif_C11_History$", "kind": "rapid",
          "facets": ["C11/history", "C11/wellformed", "C11/dedupe", "C11/complete-iff", "C11/complete-iff-midpass"],
-         "checks": (30000, 400000), "shards": (2, 16), "timeout": (600, 3000)},
+         "checks": (60000, 400000), "shards": (4, 16), "timeout": (600, 3000)},
         {"name": "c11conc", "pkg": "./pkg/models", "run": "^TestVerif_C11_Concurrent$", "kind": "rapid",
          "facets": ["C11/concurrent"], "checks": (1500, 30000), "shards": (2, 8), "timeout": (600, 3000)},
         # DedupeItems on any tree the model's consistency check accepts (not only pipeline-shaped ones)
